@@ -1,7 +1,7 @@
 // C32: the real worker queue (src/abg-workers.cc, textually included, unmodified)
 // under the controlled scheduler.  Compiled with -include vsched_shim.h.
-//   wq_harness explore W T STYLE PB SPUR [MAXSCHED]
-//   wq_harness replay  W T STYLE SPUR "c0,c1,..."        (prints the event trace)
+//   wq_harness explore W T STYLE PB SPUR [MAXSCHED [POSTUNLOCK]]   POSTUNLOCK=1: extra scheduling point after every unlock
+//   wq_harness replay  W T STYLE SPUR "c0,c1,..." [POSTUNLOCK]  (prints the event trace)
 //   wq_harness walk    W T STYLE SPUR FILE               (binding: replay thread-id paths, print abstract states)
 // STYLE: 0 schedule_tasks + wait   1 schedule_task one by one + wait
 //        2 destructor only          3 wait twice                 4 schedule after wait (must be refused)
@@ -255,6 +255,7 @@ int main(int argc, char** argv)
   if (mode == "explore") {
     ex.preempt_bound = atoi(argv[5]); ex.spurious_budget = argc > 6 ? atoi(argv[6]) : 0;
     ex.max_schedules = argc > 7 ? strtoull(argv[7], 0, 10) : 0;
+    ex.yield_after_unlock = argc > 8 ? atoi(argv[8]) : 0;
     // determinism gate: the default schedule run twice gives identical event traces
     ex.record_events = true;
     ex.run(std::vector<int>(), std::vector<std::pair<int, int> >()); std::vector<std::string> e1 = ex.cur.events; std::string c1 = vsx::Explorer::choices_str(ex.cur);
@@ -268,6 +269,7 @@ int main(int argc, char** argv)
   }
   if (mode == "replay") {
     ex.spurious_budget = atoi(argv[5]);
+    ex.yield_after_unlock = argc > 7 ? atoi(argv[7]) : 0;
     ex.record_events = true;
     std::vector<int> c = parse_choices(argc > 6 ? argv[6] : "");
     ex.run(c, std::vector<std::pair<int, int> >());
